@@ -148,3 +148,271 @@ def fuse_function(fn_node: ast.FunctionDef, resolve) -> ast.FunctionDef:
 
     walk(fn.body)
     return fn
+
+
+# ---------------------------------------------------------------------------------------------------------------------------------------------------
+# parallel key / value lists zipped into a dictionary
+
+def _blocks_of(node):
+    """every statement list of a function (its own, not those of nested functions / classes)"""
+    for n in [node] + [x for x in _own_nodes(node)]:
+        for fld in ("body", "orelse", "finalbody"):
+            b = getattr(n, fld, None)
+            if isinstance(b, list) and b and isinstance(b[0], ast.stmt):
+                yield b
+        if isinstance(n, ast.Try):
+            for h in n.handlers:
+                yield h.body
+        if isinstance(n, ast.Match):
+            for c in n.cases:
+                yield c.body
+
+
+def _empty_list_init(s):
+    """name of the variable when s is `K = []` / `K: T = []` / `K = list()`"""
+    if isinstance(s, ast.Assign) and len(s.targets) == 1 and isinstance(s.targets[0], ast.Name):
+        tgt, v = s.targets[0].id, s.value
+    elif isinstance(s, ast.AnnAssign) and isinstance(s.target, ast.Name) and s.value is not None:
+        tgt, v = s.target.id, s.value
+    else:
+        return None
+    if isinstance(v, ast.List) and not v.elts:
+        return tgt
+    if isinstance(v, ast.Call) and isinstance(v.func, ast.Name) and v.func.id == "list" and not v.args and not v.keywords:
+        return tgt
+    return None
+
+
+def _append_of(s):
+    """(list name, argument) when s is the statement `K.append(x)` with x a name or a constant"""
+    if isinstance(s, ast.Expr) and isinstance(s.value, ast.Call):
+        c = s.value
+        if isinstance(c.func, ast.Attribute) and c.func.attr == "append" and isinstance(c.func.value, ast.Name) and len(c.args) == 1 and not c.keywords and isinstance(c.args[0], (ast.Name, ast.Constant)):
+            return c.func.value.id, c.args[0]
+    return None
+
+
+def zip_lists_to_dict(fn_node):
+    """A dictionary built as  K = []; V = []; ...; K.append(k); V.append(v); ...; D = dict(zip(K, V[, strict=True]))  where K is otherwise only asked
+    `x in K` and V is not read at all is the dictionary filled entry by entry: the function with  D = {}; ...; D[k] = v; ...  and `x in D` instead
+    (same keys in the same first-insertion order, a later value replaces an earlier one under the same key in both, list membership and dictionary
+    membership agree for hashable keys).  Returns the rewritten copy of the function, or None when the idiom does not occur."""
+    own = list(_own_nodes(fn_node))
+    for blk in _blocks_of(fn_node):
+        for i, s in enumerate(blk):
+            # D = dict(zip(K, V))
+            if isinstance(s, ast.Assign) and len(s.targets) == 1 and isinstance(s.targets[0], ast.Name):
+                d_name, v = s.targets[0].id, s.value
+            elif isinstance(s, ast.AnnAssign) and isinstance(s.target, ast.Name) and s.value is not None:
+                d_name, v = s.target.id, s.value
+            else:
+                continue
+            if not (isinstance(v, ast.Call) and isinstance(v.func, ast.Name) and v.func.id == "dict" and len(v.args) == 1 and not v.keywords):
+                continue
+            z = v.args[0]
+            if not (isinstance(z, ast.Call) and isinstance(z.func, ast.Name) and z.func.id == "zip" and len(z.args) == 2 and all(isinstance(a, ast.Name) for a in z.args)):
+                continue
+            if any(not (k.arg == "strict" and isinstance(k.value, ast.Constant)) for k in z.keywords):
+                continue
+            kn, vn = z.args[0].id, z.args[1].id
+            if kn == vn or d_name in (kn, vn):
+                continue
+            inits = {_empty_list_init(x): j for j, x in enumerate(blk[:i]) if _empty_list_init(x) in (kn, vn)}
+            if set(inits) != {kn, vn}:
+                continue
+            # every other occurrence of the three names
+            names = [n for n in own if isinstance(n, ast.Name) and n.id in (kn, vn, d_name)]
+            if any(isinstance(n, (ast.Global, ast.Nonlocal)) for n in own) or any(isinstance(n, (ast.Lambda, ast.FunctionDef, ast.AsyncFunctionDef, ast.ClassDef)) for n in own):
+                continue
+            allowed = {id(z.args[0]), id(z.args[1]), id(s.targets[0] if isinstance(s, ast.Assign) else s.target)}
+            for j in inits.values():
+                x = blk[j]
+                allowed.add(id(x.targets[0] if isinstance(x, ast.Assign) else x.target))
+            pairs, tests, ok = [], [], True
+            for b2 in _blocks_of(fn_node):
+                j = 0
+                while j < len(b2):
+                    a1 = _append_of(b2[j])
+                    if a1 and a1[0] in (kn, vn):
+                        a2 = _append_of(b2[j + 1]) if j + 1 < len(b2) else None
+                        if not a2 or {a1[0], a2[0]} != {kn, vn}:
+                            ok = False
+                            break
+                        k_arg, v_arg = (a1[1], a2[1]) if a1[0] == kn else (a2[1], a1[1])
+                        pairs.append((b2, j, k_arg, v_arg))
+                        allowed.add(id(b2[j].value.func.value))
+                        allowed.add(id(b2[j + 1].value.func.value))
+                        j += 2
+                        continue
+                    j += 1
+                if not ok:
+                    break
+            if not ok or not pairs:
+                continue
+            for n in own:
+                if isinstance(n, ast.Compare) and len(n.ops) == 1 and isinstance(n.ops[0], (ast.In, ast.NotIn)) and isinstance(n.comparators[0], ast.Name) and n.comparators[0].id == kn:
+                    tests.append(n)
+                    allowed.add(id(n.comparators[0]))
+            if any(id(n) not in allowed for n in names if n.id != d_name):
+                continue
+            # the dictionary's name is not in use before the statement that creates it, and is not assigned anywhere else
+            pos = (s.lineno, s.col_offset)
+            if any(n.id == d_name and id(n) not in allowed and ((n.lineno, n.col_offset) < pos or not isinstance(n.ctx, ast.Load)) for n in names):
+                continue
+            # ---- rewrite a copy (positions of the nodes found above are recomputed on the copy through a parallel walk)
+            new = copy.deepcopy(fn_node)
+            mapping = {id(a): b for a, b in zip(ast.walk(fn_node), ast.walk(new))}
+            nblk = lambda b: next(getattr(mapping[id(p)], fld) for p in [fn_node] + own for fld in ("body", "orelse", "finalbody") if getattr(p, fld, None) is b) if not any(isinstance(p, ast.Try) and any(h.body is b for h in p.handlers) for p in own) else None
+            try:
+                for n in tests:
+                    mapping[id(n)].comparators[0] = ast.copy_location(ast.Name(id=d_name, ctx=ast.Load()), n.comparators[0])
+                edits = {}
+                for (b2, j, k_arg, v_arg) in pairs:
+                    st_ = ast.Assign(targets=[ast.Subscript(value=ast.Name(id=d_name, ctx=ast.Load()), slice=copy.deepcopy(k_arg), ctx=ast.Store())], value=copy.deepcopy(v_arg), type_comment=None)
+                    ast.copy_location(st_, b2[j])
+                    ast.fix_missing_locations(st_)
+                    edits.setdefault(id(b2), (b2, []))[1].append((j, 2, [st_]))
+                d_init = ast.Assign(targets=[ast.Name(id=d_name, ctx=ast.Store())], value=ast.Dict(keys=[], values=[]), type_comment=None)
+                ast.copy_location(d_init, blk[inits[kn]])
+                ast.fix_missing_locations(d_init)
+                edits.setdefault(id(blk), (blk, []))[1].extend([(inits[kn], 1, [d_init]), (inits[vn], 1, []), (i, 1, [])])
+                for b2, lst in edits.values():
+                    nb = nblk(b2)
+                    if nb is None:
+                        return None
+                    for j, n_, repl in sorted(lst, key=lambda e: -e[0]):
+                        nb[j:j + n_] = repl
+            except StopIteration:
+                return None
+            ast.fix_missing_locations(new)
+            return new
+    return None
+
+
+# ---------------------------------------------------------------------------------------------------------------------------------------------------
+# an action on the previous item, deferred to the top of the next trip (and repeated once after the loop)
+
+def _is_none_init(s, name=None):
+    if isinstance(s, ast.Assign) and len(s.targets) == 1 and isinstance(s.targets[0], ast.Name):
+        t, v = s.targets[0].id, s.value
+    elif isinstance(s, ast.AnnAssign) and isinstance(s.target, ast.Name) and s.value is not None:
+        t, v = s.target.id, s.value
+    else:
+        return None
+    return t if isinstance(v, ast.Constant) and v.value is None and (name is None or t == name) else None
+
+
+def _not_none_guard(s):
+    """(P, A) when s is `if P is not None: A` (no else)"""
+    if isinstance(s, ast.If) and not s.orelse and isinstance(s.test, ast.Compare) and len(s.test.ops) == 1 and isinstance(s.test.ops[0], ast.IsNot) \
+            and isinstance(s.test.left, ast.Name) and isinstance(s.test.comparators[0], ast.Constant) and s.test.comparators[0].value is None:
+        return s.test.left.id, s.body
+    return None
+
+
+def _sentinel_iter(e):
+    """(F, S) when e is iter(F, S) with F a lambda without parameters"""
+    if isinstance(e, ast.Call) and isinstance(e.func, ast.Name) and e.func.id == "iter" and len(e.args) == 2 and not e.keywords \
+            and isinstance(e.args[0], ast.Lambda) and not (e.args[0].args.args or e.args[0].args.vararg or e.args[0].args.kwarg or e.args[0].args.kwonlyargs or e.args[0].args.posonlyargs):
+        return e.args[0], e.args[1]
+    return None
+
+
+def rotate_deferred(fn_node):
+    """    P = None                                              [cnt = k]
+        for [I,] T in [enumerate(]iter(F, S)[, start=k)]:     T = F()
+            if P is not None: A(P)                            while T != S:
+            BODY                                       ==>        [I = cnt; cnt += 1]
+            P = X                                                 BODY
+        if P is not None: A(P)                                    T = F()
+                                                                  A(X)
+    The action on the item of one trip is carried out after the next item has been fetched (or the sentinel seen), in both: A on the left runs at the top of
+    the following trip or, after the last trip, behind the loop.  Conditions: P occurs nowhere else, BODY has no break / continue / return-free jump of this
+    loop and binds X afresh on every trip, A reads P and nothing that the loop rebinds, F is a lambda without parameters (the idiom `iter(lambda: read(), 0)`).
+    The iterator may also be bound to a name first (IT = iter(F, S)) when that name is used by this loop only.  Returns the new top-level statement list or None."""
+    body = fn_node.body
+    own = list(_own_nodes(fn_node))
+    for li, loop in enumerate(body):
+        if not isinstance(loop, ast.For) or loop.orelse or li + 1 >= len(body) or len(loop.body) < 3:
+            continue
+        g0, gp = _not_none_guard(loop.body[0]), _not_none_guard(body[li + 1])
+        last = loop.body[-1]
+        if not g0 or not gp or g0[0] != gp[0] or ast.dump(ast.Module(body=g0[1], type_ignores=[])) != ast.dump(ast.Module(body=gp[1], type_ignores=[])):
+            continue
+        p = g0[0]
+        if not (isinstance(last, ast.Assign) and len(last.targets) == 1 and isinstance(last.targets[0], ast.Name) and last.targets[0].id == p and isinstance(last.value, ast.Name)):
+            continue
+        x = last.value.id
+        inits = [j for j, s in enumerate(body[:li]) if _is_none_init(s, p)]
+        if len(inits) != 1:
+            continue
+        # the iterable
+        it, cnt_t, start = loop.iter, None, None
+        item_t = loop.target
+        if isinstance(it, ast.Call) and isinstance(it.func, ast.Name) and it.func.id == "enumerate" and 1 <= len(it.args) <= 2 and isinstance(loop.target, ast.Tuple) and len(loop.target.elts) == 2:
+            kw = {k.arg: k.value for k in it.keywords}
+            if set(kw) - {"start"} or (len(it.args) == 2 and kw):
+                continue
+            start = it.args[1] if len(it.args) == 2 else kw.get("start", ast.Constant(value=0))
+            cnt_t, item_t = loop.target.elts
+            it = it.args[0]
+        it_stmt = None
+        fs = _sentinel_iter(it)
+        if fs is None and isinstance(it, ast.Name):
+            defs = [j for j, s in enumerate(body[:li]) if isinstance(s, ast.Assign) and len(s.targets) == 1 and isinstance(s.targets[0], ast.Name) and s.targets[0].id == it.id]
+            uses = [n for n in own if isinstance(n, ast.Name) and n.id == it.id]
+            if len(defs) == 1 and len(uses) == 2 and _sentinel_iter(body[defs[0]].value):
+                it_stmt = defs[0]
+                fs = _sentinel_iter(body[it_stmt].value)
+        if fs is None or not isinstance(item_t, ast.Name) or (cnt_t is not None and not isinstance(cnt_t, ast.Name)):
+            continue
+        mid = loop.body[1:-1]
+        if _loop_level(mid, (ast.Break, ast.Continue)) or any(isinstance(n, (ast.Return, ast.Lambda, ast.FunctionDef)) for s in g0[1] for n in ast.walk(s)):
+            continue
+        # P occurs only in the places of the idiom; X is bound by a plain statement of BODY; A reads nothing the loop rebinds
+        p_uses = [n for n in own if isinstance(n, ast.Name) and n.id == p]
+        p_in_a = sum(1 for s in g0[1] + gp[1] for n in ast.walk(s) if isinstance(n, ast.Name) and n.id == p)
+        if len(p_uses) != p_in_a + 4:  # the two tests, the initialisation, the update
+            continue
+        if not any(isinstance(s, ast.Assign) and len(s.targets) == 1 and isinstance(s.targets[0], ast.Name) and s.targets[0].id == x for s in mid):
+            continue
+        stored = {n.id for s in loop.body for n in ast.walk(s) if isinstance(n, ast.Name) and isinstance(n.ctx, ast.Store)} | {n.id for n in ast.walk(loop.target) if isinstance(n, ast.Name)}
+        a_reads = {n.id for s in g0[1] for n in ast.walk(s) if isinstance(n, ast.Name)}
+        if (a_reads - {p}) & stored:
+            continue
+        _COUNTER[0] += 1
+        tag = "__rot%d_" % _COUNTER[0]
+        f_expr, s_expr = fs
+
+        def loc(n, at):
+            for m in ast.walk(n):
+                if getattr(m, "lineno", None) is None:
+                    ast.copy_location(m, at)
+            ast.fix_missing_locations(n)
+            return n
+
+        fetch = lambda at: loc(ast.Assign(targets=[ast.Name(id=item_t.id, ctx=ast.Store())], value=ast.Call(func=f_expr, args=[], keywords=[]), type_comment=None), at)
+        act = copy.deepcopy(g0[1])
+        for s in act:
+            for n in ast.walk(s):
+                if isinstance(n, ast.Name) and n.id == p:
+                    n.id = x
+        pre, head = [], []
+        if cnt_t is not None:
+            pre.append(loc(ast.Assign(targets=[ast.Name(id=tag + "cnt", ctx=ast.Store())], value=start, type_comment=None), loop))
+            head.append(loc(ast.Assign(targets=[ast.Name(id=cnt_t.id, ctx=ast.Store())], value=ast.Name(id=tag + "cnt", ctx=ast.Load()), type_comment=None), loop))
+            head.append(loc(ast.AugAssign(target=ast.Name(id=tag + "cnt", ctx=ast.Store()), op=ast.Add(), value=ast.Constant(value=1)), loop))
+        pre.append(fetch(loop))
+        test = loc(ast.Compare(left=ast.Name(id=item_t.id, ctx=ast.Load()), ops=[ast.NotEq()], comparators=[s_expr]), loop)
+        wl = ast.While(test=test, body=head + list(mid) + [fetch(last)] + act, orelse=[])
+        ast.copy_location(wl, loop)
+        out = []
+        for j, s in enumerate(body):
+            if j == inits[0] or j == it_stmt or j == li + 1:
+                continue
+            if j == li:
+                out.extend(pre + [wl])
+            else:
+                out.append(s)
+        return out
+    return None
